@@ -349,6 +349,35 @@ func c12Run(c *Ctx, cs c12Case, count bool) {
 	if ta != tn {
 		c.Violation(key("differs:Transfer"), fmt.Sprintf("%s: Transfer gives %s, native %s", desc, ta, tn), cs, size)
 	}
+	// Transfer into a destination that is itself one of the source's elements (the tree contains itself
+	// afterwards, so nothing is rendered from here on): the same verdict and the same growth, whatever form
+	// that element is stored in
+	var sa, sn []string
+	if p := noPanic(func() {
+		a3 := cs.Tree.build(cs.Forms, true).(stackage.Stack)
+		n3 := cs.Tree.build(native).(stackage.Stack)
+		for ri, root := range []stackage.Stack{a3, n3} {
+			for i, e := range contents(root) {
+				if dst, ok := refAsStack(e); ok {
+					l0 := dst.Len()
+					okT := root.Transfer(e)
+					line := fmt.Sprintf("element %d as destination: Transfer=%v Len %d->%d", i, okT, l0, dst.Len())
+					if ri == 0 {
+						sa = append(sa, line)
+					} else {
+						sn = append(sn, line)
+					}
+					break // one self-containing edit per tree
+				}
+			}
+		}
+	}); p != "" {
+		c.Violation(key("panic:Transfer-into-own-element"), desc+": "+p, cs, size)
+		return
+	}
+	if strings.Join(sa, "\n") != strings.Join(sn, "\n") {
+		c.Violation(key("differs:Transfer-into-own-element"), fmt.Sprintf("%s: Transfer of the tree into one of its own elements gives %v, on the native tree %v", desc, sa, sn), cs, size)
+	}
 	// a change made below a (read-only, already rendered) root through the nested instance's own handle
 	// shows in the root's next rendering, whatever form the nested instance is stored in
 	var la, ln []string
@@ -502,6 +531,21 @@ func c12Trees(c *Ctx) []anode {
 				kids[w-1] = C("wk", S("LIST", lf("e")))
 			}
 			trees = append(trees, anode{T: "S", K: kindNames[(w+at)%5], Kids: kids})
+		}
+	}
+	// ... and flat ones: five and more values, no Stack among them, Conditions (with plain expressions) first,
+	// in the middle, last
+	for _, w := range []int{5, 6, 7, 9, 17} {
+		for _, at := range []int{0, w / 2, w - 1} {
+			kids := make([]anode, w)
+			for i := range kids {
+				kids[i] = lf(fmt.Sprintf("f%d", i))
+			}
+			kids[at] = C("fk", lf("fv"))
+			if at == 0 {
+				kids[w-1] = C("fk2", lf(7))
+			}
+			trees = append(trees, anode{T: "S", K: kindNames[(w+at+1)%5], Kids: kids})
 		}
 	}
 	if !c.Quick() {
